@@ -20,6 +20,7 @@ PROP = {'counts': {'quick': 2, 'thorough': 20},
                  'pkg/engine/storage, pkg/replication; its approximations are listed in the generated file',
                  'probes use loopback TCP; grpc-go default flow-control windows'],
  'partial': 'TCP and HTTP/2 flow control are not modelled: the session model (ReplSession.v) abstracts a '
-            'transport as the number of responses it still accepts; the stall itself is exhibited by the probes. '
-            'C15_no_blocking_under_lock_statement is false on this tree (C15_refuted, D19) and the lock order has '
-            'cycles (C15_lock_order_refuted, D19b); C15_partial / C15_lock_order_partial cover everything else'}
+            'transport as the number of responses it still accepts; the stall itself is only exhibited by the '
+            'probes. The static table treats the direct stream write kept for sessions without a sender '
+            '(hand-built in tests) as unreachable because every construction of a session in the analysed '
+            "code sets its queue (generated fact always_set_fields)"}
